@@ -18,6 +18,9 @@
 (*   "exact"   the repaired code: the exclusion, stripped of its body prefix,     *)
 (*             equals the cursor                                                  *)
 (*   "name"    a broken variant: also by the last key alone (must be refuted)     *)
+(*   "verbatim_undecoded"  a broken variant of the body extraction: a body whose   *)
+(*             declared encoding could not be undone is exported as received       *)
+(*             (must be refuted)                                                   *)
 EXTENDS ObfP
 
 CONSTANTS Variant
@@ -37,9 +40,9 @@ BodyPathOf(s) ==
 CursorExcluded(cursor, XS) ==
     CASE Variant = "suffix" -> \/ cursor \in XS
                                \/ cursor # <<>> /\ \E s \in XS : IsSuffix(cursor, s)
-      [] Variant = "exact" -> \E s \in XS : BodyPathOf(s) = cursor
       [] Variant = "name" -> \/ \E s \in XS : BodyPathOf(s) = cursor
                              \/ cursor # <<>> /\ \E s \in XS : s # <<>> /\ s[Len(s)] = cursor[Len(cursor)] /\ s[Len(s)] # "[]"
+      [] OTHER -> \E s \in XS : BodyPathOf(s) = cursor                  \* "exact" (and the variants of the body extraction)
 
 Leaf(t) == [k |-> "leaf", t |-> t, f |-> <<>>]
 Obj(fs) == [k |-> "obj", t |-> "", f |-> fs]
@@ -70,6 +73,24 @@ Passed(X, entry) ==
       [] OTHER -> all
 
 Obfuscate(d, X, entry) == Walk(d, <<>>, Passed(X, entry), FALSE)
+
+-----------------------------------------------------------------------------
+\* Body extraction of the exporters (services/diagnoses/har_generator_plugin.go extractBody / ensureDecompressedBody and
+\* har-collector buildHARBody): the body is gunzipped when the Content-Encoding value is gzip and the bytes are gzip data,
+\* otherwise taken as received; then ObfuscateJSON, and when that fails to parse, the hash of the whole body.
+\* Outcome for a body whose JSON text travels as `wire` under header `enc`:
+\*   "structured" the document is walked (Obfuscate above), "opaque" the whole-body hash, "verbatim" the body as received
+Encodings == {"", "gzip", "identity", "br", "gzip, deflate", "deflate"}
+Wires == {"plain", "gzip"}
+BodyOutcome(enc, wire) ==
+    LET gunzipped == enc = "gzip" /\ wire = "gzip"
+        text == wire = "plain" \/ gunzipped              \* what ObfuscateJSON receives is the JSON text
+    IN  IF Variant = "verbatim_undecoded" /\ enc # "" /\ ~gunzipped THEN "verbatim"
+        ELSE IF text THEN "structured" ELSE "opaque"
+\* I => P for the transport dimension: an opaque export only where the property permits it, never a verbatim one
+BodyConforms == \A enc \in Encodings, wire \in Wires :
+                   /\ BodyOutcome(enc, wire) # "verbatim"
+                   /\ BodyOutcome(enc, wire) = "opaque" => ~Decodable(enc, wire)
 
 -----------------------------------------------------------------------------
 \* the bounded input space
